@@ -150,7 +150,7 @@ var modes = map[string]mode.Mode{"rw": mode.ReadWrite, "ro": mode.ReadOnly, "deg
 
 func genHist(t *rapid.T, withObjExp, withRace bool) hist {
 	var h hist
-	h.N = rapid.IntRange(2, 3).Draw(t, "nshards")
+	h.N = rapid.SampledFrom([]int{2, 3, 3}).Draw(t, "nshards")
 	for len(h.Hashes) < h.N {
 		v := rapid.Uint64().Draw(t, "shardhash")
 		dup := false
@@ -286,6 +286,16 @@ func genHist(t *rapid.T, withObjExp, withRace bool) hist {
 		chain = append(chain, op{K: "lock", ID: li})
 		if rapid.IntRange(0, 3).Draw(t, "chain-restore") != 0 {
 			chain = append(chain, op{K: "failput", Shard: sh, On: false}, op{K: "mode", Shard: sh, Mode: "rw"})
+		}
+		// often another shard runs without metabase while the tombstone arrives
+		// (the lock is then known to a shard WITH metabase, the holder may lack it,
+		// and an unrelated shard cannot answer lock queries)
+		if h.N == 3 && rapid.IntRange(0, 9).Draw(t, "chain-thirddeg") < 6 {
+			other := rapid.IntRange(0, h.N-2).Draw(t, "chain-third")
+			if other >= sh {
+				other++
+			}
+			chain = append(chain, op{K: "mode", Shard: other, Mode: "degro"})
 		}
 		ti := -1
 		for k := 0; k < nt; k++ {
@@ -593,6 +603,14 @@ func (r *run) acceptLock(i int, lockIdx int, partial bool) {
 		r.labels["lock-accepted-target-not-stored"] = true
 		return
 	}
+	for _, h := range r.e.Holders(r.addr(o)) {
+		if r.noMeta(h) {
+			// a holder without metabase serves the blob whatever its status is
+			// (e.g. already tombstoned): "the engine stores it" is not established
+			r.labels["lock-accepted-while-holder-degraded(not-tracked)"] = true
+			return
+		}
+	}
 	if len(r.knowers(o)) == 0 {
 		// accepted by shards without metabase only: nothing can enforce it
 		r.labels["lock-accepted-unknown-to-any-metabase"] = true
@@ -635,9 +653,15 @@ func (r *run) exec(i int, o op) {
 			kn = r.knowers(tgt)
 		}
 		r.e.TakeCalls()
+		hadT := len(r.e.Holders(r.addr(o.ID)))
 		err := r.e.E.Put(ctx, r.objs[o.ID], nil)
 		r.noteOrder(i, r.addr(o.ID))
 		r.trace = append(r.trace, fmt.Sprintf("%s [%s] -> %s order %s", step, r.modesStr(), errStr(err), r.orders[i]))
+		if err == nil && len(r.e.Holders(r.addr(o.ID))) <= hadT {
+			// re-put of a tombstone that is stored already: a no-op, nothing was accepted
+			r.labels["tomb-reput-noop"] = true
+			protected = false
+		}
 		if protected {
 			r.labels["tomb-attempt-on-live-lock"] = true
 			if r.stage[tgt] == 1 {
@@ -663,6 +687,7 @@ func (r *run) exec(i int, o op) {
 			knBefore = r.knowers(tgt)
 		}
 		partial := !r.allWritable()
+		hadT := len(r.e.Holders(r.addr(tombIdx)))
 		var errL, errT error
 		aL := newActor(func() { errL = r.e.E.Put(ctx, r.objs[lockIdx], nil) })
 		aT := newActor(func() { errT = r.e.E.Put(ctx, r.objs[tombIdx], nil) })
@@ -700,7 +725,9 @@ func (r *run) exec(i int, o op) {
 		r.labels["race"] = true
 		r.races[i] = strings.TrimSpace(r.raceLog)
 		if same {
-			if errL == nil && errT != nil && pre == engx.OK && post == engx.OK && tombBeforeLock(r.races[i]) {
+			// (the target may also be absent during the race and uploaded afterwards:
+			// the stale garbage key of the rolled-back tombstone waits for it)
+			if errL == nil && errT != nil && pre == post && (pre == engx.OK || pre == engx.NotFound) && tombBeforeLock(r.races[i]) {
 				r.raced[tgt] = true
 				r.labels["race-tomb-rolled-back-after-partial-accept"] = true
 			}
@@ -720,7 +747,7 @@ func (r *run) exec(i int, o op) {
 					r.labels["race-tomb-won"] = true
 				}
 			}
-			if wasLive && len(knBefore) > 0 && errT == nil {
+			if wasLive && len(knBefore) > 0 && errT == nil && len(r.e.Holders(r.addr(tombIdx))) > hadT {
 				r.fail(tgt, "", "%s: tombstone for locked object o%d was accepted (Put = nil)", step, tgt)
 			}
 		}
